@@ -1,6 +1,7 @@
 package verifsim
 
 import (
+	"strconv"
 	"context"
 	"fmt"
 	"hash/fnv"
@@ -258,7 +259,7 @@ func (e *Env) pick(acts []action) int {
 		for e.replayAt < len(e.Replay) {
 			want := e.Replay[e.replayAt]
 			e.replayAt++
-			if strings.HasPrefix(want, "O:") || strings.HasPrefix(want, "A:") {
+			if strings.HasPrefix(want, "O:") || strings.HasPrefix(want, "A:") || strings.HasPrefix(want, "M:") {
 				continue
 			}
 			for i, a := range acts {
@@ -365,6 +366,56 @@ func (e *Env) order(site string, n int) []int {
 	}
 	if e.Record {
 		e.Tape = append(e.Tape, "O:"+site+":"+permString(p))
+	}
+	return p
+}
+
+// mapOrder implements simhook's MapOrderFn: the order in which this run
+// iterates a map with n keys - a seeded permutation, recorded on the tape as
+// "M:<site>:<i,j,...>" and replayed from it.
+func (e *Env) mapOrder(site string, n int) []int {
+	p := make([]int, n)
+	for i := range p {
+		p[i] = i
+	}
+	pre := "M:" + site + ":"
+	enc := func() string {
+		parts := make([]string, n)
+		for i, v := range p {
+			parts[i] = strconv.Itoa(v)
+		}
+		return pre + strings.Join(parts, ",")
+	}
+	if e.Replay != nil {
+		if e.replayAt < len(e.Replay) && strings.HasPrefix(e.Replay[e.replayAt], pre) {
+			parts := strings.Split(e.Replay[e.replayAt][len(pre):], ",")
+			e.replayAt++
+			if len(parts) == n {
+				q := make([]int, n)
+				seen := make([]bool, n)
+				ok := true
+				for i, s := range parts {
+					v, err := strconv.Atoi(s)
+					if err != nil || v < 0 || v >= n || seen[v] {
+						ok = false
+						break
+					}
+					q[i], seen[v] = v, true
+				}
+				if ok {
+					p = q
+				}
+			}
+		}
+		// otherwise (tape thinned or exhausted): sorted order
+		if e.Record {
+			e.Tape = append(e.Tape, enc())
+		}
+		return p
+	}
+	e.sch.Shuffle(n, func(i, j int) { p[i], p[j] = p[j], p[i] })
+	if e.Record {
+		e.Tape = append(e.Tape, enc())
 	}
 	return p
 }
